@@ -58,6 +58,14 @@ CHECKS = {
          "Exploration, exhaustive for 0..=0x10FFFF (both classes, both entry points, class relation) and sampled above; two independent oracles must both agree with the implementation.",
          "Trusts pinned UCD 6.3.0 files, the IANA CSV, ICU4X NFKC and my typing of the RFC 5892 2.6 exceptions.",
          "DESIGN.md 3/C14"),
+ "C15": ("proptest-generated UCD directories (configurations) + variations of the pinned files + the pinned files, run through the real generators and read back; oracle = independent parse of the same inputs",
+         "Exploration: thousands of synthetic UnicodeData/Scripts/JoiningType/PropList/CoreProperties/HangulSyllableType directories (single lines and First/Last pairs in every adjacency, all categories, all 23 bidi classes, wide/narrow/compat decompositions), variations of the pinned files, and the pinned files themselves; all 47 emitted tables are rebuilt as Vec<precis_core::Codepoints> and compared with my own parse at every input/entry boundary +-2 (complete for piecewise-constant tables) or at all 1,114,112 code points (pinned), including searchability and single-valuedness.",
+         "Trusts my reader of the generators' rigid emitted syntax (declared length must equal the entry count), my UCD parsers, and that real UCD files never assign noncharacters / stay below U+10FFFE.",
+         "DESIGN.md 3/C15"),
+ "C17": ("proptest structured rows and files (round trip against the generator's structured row, malformed rows by construction), differential against an independent CSV reader on the IANA file",
+         "Exploration: millions of generated well-formed and malformed rows through PrecisDerivedProperty/DerivedProperties/DerivedProperty::from_str, tens of thousands of generated files through CsvLineParser::from_path (header skipped, file order, line numbers of errors, LF/CRLF, final newline), and the real registry file against my own reader.",
+         "Does not assert either way on lower-case or sign-prefixed hex, over-long zero padding and reversed ranges (the code never claims them).",
+         "DESIGN.md 3/C17"),
  "C18": ("exhaustive windows (bottom, U+10FFFF, u32::MAX) + proptest pairs and generated tables, against the mathematical definition",
          "Exploration, exhaustive over every entry and code point in three 33-wide windows including both ends of the u32 range; random pairs over all u32 and generated sorted tables for the binary-search claim.",
          "None beyond the Rust comparison operators being dispatched to the PartialOrd/PartialEq impls generated from the template.",
